@@ -81,7 +81,26 @@ Theorem C17_write_file_shape : write_file_shape_ok = true.
 Proof. exact eq_refl. Qed.
 Print Assumptions C17_write_file_shape.
 
+(* the file of a key depends on the key only, not on the process (no hash()/id()/random/time/pid in key_to_file_path), and
+   _write_file opens exactly that file and unlinks / renames nothing (both regenerated from the source) *)
+Theorem C17_key_path_process_independent : key_path_is_process_independent = true.
+Proof. exact eq_refl. Qed.
+Print Assumptions C17_key_path_process_independent.
+
+Theorem C17_write_file_touches_only_its_key : write_file_opens_target_only = true.
+Proof. exact eq_refl. Qed.
+Print Assumptions C17_write_file_touches_only_its_key.
+
 (* ---- refutations ---- *)
+(* replacing a key's file (unlink, then create) changes a directory entry: without a sync of the directory the completed
+   set is not durable in the strict variant; with it, it is *)
+Theorem C17_unlink_then_create_needs_dir_sync :
+  let evs1 := [Open [1]; Write [1] [5]; Fsync [1]; Close [1]; FsyncDir []] in
+  let evs2 := [Unlink [1]; Open [1]; Write [1] [6]; Fsync [1]; Close [1]] in
+  check_crash false [[1]] [([1], [5], evs1); ([1], [6], evs2)] = false /\
+  check_crash false [[1]] [([1], [5], evs1); ([1], [6], evs2 ++ [FsyncDir []])] = true.
+Proof. vm_compute. split; reflexivity. Qed.
+
 Definition evs_of (sets : list (name * bytes * list ev)) : list (list ev) := map (fun x => snd x) sets.
 
 (* R11 (fixed 94454e7): without f.flush() a payload that fits the buffer is written at close, after the fsync *)
